@@ -17,7 +17,7 @@ CHECKS["C17"] = dict(
 CHECKS["C20"] = dict(
     level="exploration", engine="inputx",
     technique="exhaustive enumeration of the whole input range (every mCPU value, every cgroup shares value, a dense capacity interval plus structured families) on the real functions",
-    rule="every CPU request/limit 0..256000 mCPU, every cpu.shares value 2..262144, and every memory capacity of the family "
+    rule="every CPU request/limit 0..256000 mCPU on the reconstruction function and, for ~6000 structured values x 3 histories (fresh name, previous same-named instance exited but cached, previous instance running), through InsertContainer/GetResourceRequirements of a real cache; every cpu.shares value 2..262144, and every memory capacity of the family "
          "(dense interval above 1 MiB + powers of two/ten with deltas + quadratic sweep to 16 TiB + real MemTotal values) x every "
          "Burstable oom_score_adj 3..999; non-trivial = distinct inputs whose encoding is not clamped (cpu) / distinct capacities",
     bound=dict(quick="cpu: full range; capacities: 2^18 dense + ~61k structured", thorough="cpu: full range; capacities: 2^22 dense + ~61k structured"),
@@ -36,21 +36,21 @@ CHECKS["C06"] = dict(_LIBMEM,
     rule="explicit-state BFS over Allocate/GetOffer/Commit/Realloc/Release/Reset on a real libmem Allocator per node-set scenario; "
          "twin executions (trace without uncommitted offers / commit replaced by direct allocation) for the differential clauses; "
          "non-trivial = distinct states with at least two live allocations",
-    bound=dict(quick="18 scenarios, all sequences to depth 4 (8-node set: prefix of 3 + depth 3)", thorough="27 scenarios, all sequences to depth 5 (8-node set: prefix of 3 + depth 4)"),
+    bound=dict(quick="20 scenarios, all sequences to depth 4 (8-node set: prefix of 3 + depth 3)", thorough="30 scenarios, all sequences to depth 5 (8-node set: prefix of 3 + depth 4)"),
     stages=[dict(pkg="./pkg/resmgr/lib/memory", run="TestVerifC06", shards=16)],
 )
 CHECKS["C07"] = dict(_LIBMEM,
     rule="same exploration frame as C06; after every successful Allocate/Realloc/Commit: capacity of every node subset, strict types, "
          "normal memory, superset-only moves, immovable reservations, exact update set; non-trivial = states with at least two live allocations",
-    bound=dict(quick="18 scenarios, all sequences to depth 4 (8-node set: prefix of 3 + depth 3)", thorough="27 scenarios, all sequences to depth 5 (8-node set: prefix of 3 + depth 4)"),
+    bound=dict(quick="20 scenarios (incl. a memory-less node next to movable-only memory), all sequences to depth 4 (8-node set: prefix of 3 + depth 3)", thorough="30 scenarios, all sequences to depth 5 (8-node set: prefix of 3 + depth 4)"),
     stages=[dict(pkg="./pkg/resmgr/lib/memory", run="TestVerifC07", shards=16)],
 )
 
 CHECKS["C16"] = dict(
     level="exploration", engine="inputx",
     technique="exhaustive enumeration of a generated machine family; discovery judged against the generator's record, pool tree judged against structural rules",
-    rule="every machine of the family packages{1,2,4} x dies{1,2} x NUMA/die{1,2} x cores{1,2(,3)} x threads{1,2} x 15 variants "
-         "(HT numbering, offline/isolated CPUs incl. all-but-one CPU isolated, CPU-less PMEM/HBM nodes, memory-less and movable-only nodes, cache sharing patterns, hybrid cores, cpufreq); "
+    rule="every machine of the family packages{1,2,4} x dies{1,2} x NUMA/die{1,2} x cores{1,2(,3)} x threads{1,2} x 17 variants "
+         "(HT numbering, core ids that restart in every die, offline/isolated CPUs incl. all-but-one CPU isolated, CPU-less PMEM/HBM nodes, memory-less and movable-only nodes, cache sharing patterns, hybrid cores, cpufreq); "
          "non-trivial = machines with at least one irregularity (extra nodes, offline/isolated CPUs, memory-less node, hybrid cores)",
     bound=dict(quick="~570 machines for discovery; ~250 machines x 4 available/reserved configurations for the pool tree", thorough="~830 machines; ~250 machines x 6 configurations"),
     assumptions=["sysfs model: node ids contiguous from 0, an offline CPU keeps its nodeN link but has no topology directory, node cpulist lists online CPUs only"],
@@ -84,48 +84,48 @@ def _resmgr(pid, rule, quick, thorough, run=None, **kw):
 CHECKS["C01"] = _resmgr("C01",
     "explicit-state BFS over NRI request histories (create/stop/remove/update/synchronize/reconfigure) on a real topology-aware resource manager per scenario (machine x configuration x container templates); "
     "oracle after every request on told-view, cache, ExportResourceData and zones; non-trivial = distinct states with an exclusive grant and at least one other grant",
-    "8 scenarios, depth 5", "12 scenarios, depth 6")
+    "17 scenarios (incl. isolated CPUs handed out and released, reconfigurations that take granted CPUs away, re-synchronisation after containers vanished), depth 5", "21 scenarios, depth 6")
 CHECKS["C03"] = _resmgr("C03",
     "same frame as C01; oracle: per-pool capacity ledger, non-negative Available, non-empty cpusets, documented exclusive-CPU eligibility (reference model written from the docs), cpu.shares encoding; "
     "non-trivial = states with at least two live containers",
-    "8 scenarios, depth 5", "12 scenarios, depth 6")
+    "17 scenarios (same frames as C01), depth 5", "21 scenarios, depth 6")
 CHECKS["C05"] = _resmgr("C05",
     "same frame as C01; oracle: told-view (creation adjustment + returned and pushed updates, NRI merge semantics) equals the cache for every live container, nothing pending, "
     "adjustment describes only the created container, at most one update per container, no update to stopped/removed containers; the driver includes the reconfiguration scenarios of C13 "
     "(configuration updates offered at every request boundary: identical, accepted changes, every rejection kind - a rejected update is rolled back by re-applying the old configuration, which moves containers again); "
     "non-trivial = states with at least two live containers",
-    "23 scenarios (both policies), depth 4-5", "29 scenarios, depth 5-6")
+    "37 scenarios (both policies; the frames of C01 and C02 plus the reconfiguration scenarios of C13), depth 4-5", "44 scenarios, depth 5-6")
 CHECKS["C09"] = _resmgr("C09",
     "explicit-state BFS as C01 plus failing requests, resynchronisation, reconfiguration between stop and remove, restarts and re-created containers; for EVERY visited state the history is extended by "
     "'stop and remove everything' on the same real instance and compared with the pristine state of a fresh instance with the effective configuration; per request: stopped/removed containers hold nothing; "
     "non-trivial = states with at least two live containers",
-    "23 scenarios (both policies, incl. a reconfiguration that removes the CPUs exclusive grants sit on), depth 5 (+ drain suffix per state)", "29 scenarios, depth 6 (+ drain suffix per state)")
+    "41 scenarios (both policies; frames of C01/C02, failing requests, restarts, re-creation, plus the reconfiguration scenarios of C13 - options toggled between admission and release), depth 4-5 (+ drain suffix per state)", "48 scenarios, depth 5-6 (+ drain suffix per state)")
 CHECKS["C02"] = _resmgr("C02",
     "explicit-state BFS over create/stop/remove/synchronize/reconfigure histories on a real balloons resource manager per configuration scenario; oracle after every request from zones, cache/told cpusets, "
     "the cached CPU class assignment and the balloon snapshot: disjoint balloons inside the available set, exactly-one membership, container cpuset = balloon + shared idle (one thread per core when hidden), "
     "shared idle set exact for the sharing scope, min/max CPUs and instances, balloon size >= requests, CPU classes; non-trivial = states with at least two live containers",
-    "4 configuration scenarios, depth 5", "6 configuration scenarios, depth 6")
+    "8 configuration scenarios (incl. class-only reconfigurations back and forth, re-synchronisation after containers vanished), depth 5; balloon limits/options/classes are judged against the configuration in force, not against what the balloon object remembers", "10 configuration scenarios, depth 6")
 CHECKS["C04"] = _resmgr("C04",
     "explicit-state BFS over create/start/stop/remove histories with memory-heavy containers on NUMA layouts (2/4 DRAM, DRAM+CPU-less PMEM, DRAM+HBM, movable-only node, asymmetric capacities), both policies, "
     "incl. a balloon that inflates from one NUMA node across both (re-allocation of the zones of the containers in it) and topology-aware cold start (PMEM-only zone, re-allocated to PMEM+DRAM by the cold-start-done event, offered only while the policy has a cold-start timer armed); "
     "oracle after every request: told/cached cpuset.mems = Allocator.AssignedZone, non-empty, nodes with memory; capacity of every node subset; widened zones delivered in the same reply; "
     "non-trivial = states with at least two memory allocations",
-    "11 scenarios, depth 5", "12 scenarios, depth 6")
+    "12 scenarios (incl. two containers of one balloon widening each other), depth 5", "13 scenarios, depth 6")
 CHECKS["C12"] = _resmgr("C12",
     "explicit-state BFS over histories in which opted-out containers (cpu.preserve / memory.preserve at container, pod and bare level, balloons preserve rule, pinCPU/pinMemory off globally or per balloon type) are created with a "
     "non-empty runtime cpuset and coexist with containers that cause re-balancing (shared-set shrink/grow, balloon inflate/deflate, zone widening under memory pressure incl. a Burstable memory-only opt-out), with updates, synchronize, reconfigure and the end of cold-start periods; "
     "oracle: every adjustment/update addressed to an opted-out container carries no plugin-chosen cpus / no different mems; non-trivial = states with at least two live containers",
-    "16 scenarios, depth 5", "17 scenarios, depth 6")
+    "17 scenarios (incl. a preserve rule that arrives by a configuration update), depth 5", "18 scenarios, depth 6")
 CHECKS["C13"] = _resmgr("C13",
     "explicit-state BFS over histories with a configuration update offered at every request boundary (identical, every rejection kind, valid changes), both policies; oracle: identical config changes nothing and pushes no real change; "
     "a rejected update leaves containers, zones and policy state untouched and - twin execution on a second real instance without the rejected updates - later decisions identical; after an accepted update all C01-C05/C02/C09 clauses hold; "
     "non-trivial = states with at least two live containers",
-    "5 scenarios x 6-9 configurations, depth 4", "5 scenarios, depth 5")
+    "7 scenarios x 3-9 configurations, depth 4; the state key carries which kinds of update have been refused so far and the implicit affinities registered in the cache, so a state reached through a refused update is never merged with the one that never saw it", "7 scenarios, depth 5")
 
 CHECKS["C10"] = dict(
     level="fault_enumeration", engine="crashx",
     technique="explicit-state search over cache operation histories; for every save of every history: enumeration of every crash point (each primitive filesystem step, each byte offset of a write into the cache file) and every single step failure through an os shim; exhaustive permission matrix",
-    rule="all histories of 19 cache operations (incl. a plugin restart: a new cache instance on the same state directory, not rendered before the next save) up to the depth bound on a real cache that starts on a fresh state directory (the very first save, into a directory without a cache file, is hooked and judged too); per save: the directory state at every primitive-step boundary and at every byte offset of a write that targets the cache file itself "
+    rule="all histories of 20 cache operations (incl. a pod whose resources arrive asynchronously from the pod resources API after InsertPod has saved, and a plugin restart: a new cache instance on the same state directory, not rendered before the next save) up to the depth bound on a real cache that starts on a fresh state directory (the very first save, into a directory without a cache file, is hooked and judged too); per save: the directory state at every primitive-step boundary and at every byte offset of a write that targets the cache file itself "
          "(offsets of writes into the temporary file leave the cache file untouched and are reloaded at the first, middle and last byte only) is materialised and loaded with NewCache; every primitive step is made to fail once "
          "(EIO, also with short writes); target x kind x all 512 modes for the permission clause; non-trivial = histories containing a container / refused permission cases",
     bound=dict(quick="depth 3 histories; 7680 permission cases", thorough="depth 6 histories; 7680 permission cases"),
@@ -172,7 +172,7 @@ CHECKS["C19"] = dict(
     technique="exhaustive enumeration of an expression grammar x subjects against an independent reference evaluator; exhaustive enumeration of ordered balloon-type lists x container kinds on a real balloons resource manager",
     rule="expressions: 39 keys (plain, nested pod/labels/tags, joint keys with default/custom/invalid separators, invalid keys) x 12 operators x value lists of length 0-2 (0-3 thorough) over 8 atoms x 5 subjects (pods and containers); "
          "clauses: negation pairs complementary, joint-key values, validated expressions resolve without error, documented operator semantics, affinity weights clamped; "
-         "balloon-type selection: all permutations of user types (+ explicit reserved/default placement) x container kinds; non-trivial = accepted expressions / containers placed",
+         "balloon-type selection: all permutations of user types (+ explicit reserved/default placement) x container kinds, each on the configuration as applied and again after an update that validation refuses and that carries other type names; non-trivial = accepted expressions / containers placed",
     bound=dict(quick="~170k expression evaluations; 6 type orders x 12 container kinds", thorough="~1M expression evaluations; 24 type orders x 12 container kinds"),
     assumptions=["the documentation does not describe the '*' wildcard accepted by Equals/In; inputs with a '*' value are judged for negation symmetry only"],
     stages=[dict(pkg="./pkg/resmgr/cache", run="TestVerifC19", shards=1),
